@@ -308,6 +308,13 @@ func (out *Output) moveCrossAxis(d fixed.Int26_6) {
 	}
 	out.GlyphBounds.Ascent += d
 	out.GlyphBounds.Descent += d
+	// the bounds always enclose the baseline
+	if out.GlyphBounds.Ascent < 0 {
+		out.GlyphBounds.Ascent = 0
+	}
+	if out.GlyphBounds.Descent > 0 {
+		out.GlyphBounds.Descent = 0
+	}
 }
 
 // AdjustBaselines aligns runs with different baselines.
